@@ -252,12 +252,62 @@ func genHandlerStates(t *rapid.T) Program {
 	return p
 }
 
+// genStaleLookup draws programs in which a callee changes something that is looked up through a cache of the
+// execution (a contract it deploys, an account it blocks, a fee it sets, a storage item), USES it once, and then
+// fails; the caller catches the failure and uses the same thing: it has to see the state from before the call,
+// whatever was looked up in between.
+func genStaleLookup(t *rapid.T) Program {
+	p := Program{Contracts: make([]Contract, 3)}
+	for c := range p.Contracts {
+		p.Contracts[c].Fund = rapid.IntRange(0, 2).Draw(t, "fund")
+	}
+	j := rapid.IntRange(0, 1).Draw(t, "j")
+	var change, use Op
+	switch rapid.IntRange(0, 5).Draw(t, "what") {
+	case 0, 1, 2:
+		change, use = Op{K: "deploy", A: j}, Op{K: "calltiny", A: j}
+	case 3:
+		change, use = Op{K: "put", A: j, B: 1}, Op{K: "read", A: j}
+	case 4:
+		change, use = Op{K: "block", A: 2 + rapid.IntRange(0, 2).Draw(t, "blk")}, Op{K: "call", A: 1}
+	default:
+		change, use = Op{K: "fee", B: rapid.IntRange(0, 2).Draw(t, "fee")}, Op{K: "read", A: j}
+	}
+	callee := append(genEffects(t, 0, 1), change)
+	for i := rapid.IntRange(1, 2).Draw(t, "uses"); i > 0; i-- {
+		callee = append(callee, use)
+	}
+	callee = append(callee, genEffects(t, 0, 1)...)
+	if rapid.IntRange(0, 9).Draw(t, "callee_throws") < 9 {
+		callee = append(callee, Op{K: "throw"})
+	}
+	p.Contracts[1].Methods = []Method{{Ops: callee}}
+	p.Contracts[2].Methods = []Method{{Ops: genEffects(t, 1, 2)}}
+	var a []Op
+	a = append(a, genEffects(t, 0, 1)...)
+	if rapid.Bool().Draw(t, "nested") { // the failing callee is called by a callee that fails as well / that goes on
+		a = append(a, Op{K: "try", HasC: true, Body: []Op{{K: "call", A: 0}}, Catch: genEffects(t, 0, 1)})
+	} else {
+		a = append(a, Op{K: "try", HasC: true, HasF: rapid.Bool().Draw(t, "fin"), Body: []Op{{K: "call", A: 0}}, Fin: []Op{use}})
+	}
+	a = append(a, use)
+	if change.K == "deploy" && rapid.Bool().Draw(t, "redeploy") {
+		a = append(a, change, use)
+	}
+	a = append(a, genEffects(t, 0, 1)...)
+	p.Contracts[0].Methods = []Method{{Ops: a}}
+	p.Entry = []Op{{K: "try", HasC: true, Body: []Op{{K: "call", A: 0}}}, use}
+	return p
+}
+
 func genProgram(t *rapid.T) Program {
 	switch rapid.IntRange(0, 15).Draw(t, "program_shape") {
 	case 0, 1, 2, 3, 4, 5, 6:
 		return genChain(t)
 	case 14, 15:
 		return genHandlerStates(t)
+	case 13:
+		return genStaleLookup(t)
 	}
 	var p Program
 	nc := rapid.IntRange(1, 3).Draw(t, "ncontracts")
